@@ -117,5 +117,12 @@ theorem objective_det (obj : List ℝ → ℝ) (D : Deriv ℝ) (cap : Option Nat
     · rw [hpt, List.length_set]; exact hl
     · intro i hik
       rw [hpt, List.getElem?_set_ne (Ne.symm hik)]; exact hag i hik
+  · intro fn pl x pl' hJ h
+    obtain ⟨⟨q, rfl, hq, hp, hc⟩, hk, hl, hag⟩ := hJ
+    obtain ⟨p', hs, hv, hp', hc', _⟩ := setValue_free q.p x hp hc
+    rw [setValueAt, hs] at h
+    simp only [Except.ok.injEq] at h
+    subst h
+    exact ⟨⟨⟨_, rfl, hq, hp', hc'⟩, hk, hl, hag⟩, by simp [value0, hv]⟩
 
 end Bpp.Optim
